@@ -120,6 +120,8 @@ def job_spell(j):
 def job(j):
     if j.get('op') == 'spell':
         return job_spell(j)
+    if j.get('op') == 'reload':
+        return job_reload(j)
     sch = get_scheme(j['lib'])
     out = []
     for smi in j['smiles']:
@@ -135,8 +137,30 @@ def job(j):
             r['graph'] = prepared_graph(smi)
         if j.get('as_mol'):
             r['impl_mol'] = decomp(sch, Chem.MolFromSmiles(smi))
+        if j.get('mol_twice'):
+            # ONE molecule object that has all its hydrogens already, handed in twice (and to another scheme in between):
+            # decomposing must not write into the caller's object
+            m = Chem.AddHs(Chem.MolFromSmiles(smi))
+            r['molH'] = [decomp(sch, m)]
+            if j.get('prime'):
+                decomp(get_scheme(j['prime']), m)
+            r['molH'].append(decomp(sch, m))
         out.append(r)
     return {'results': out}
+
+
+def job_reload(j):
+    """scheme files written one after the other to the SAME path, each loaded and used right away: what is loaded is what the file says now"""
+    out = []
+    for text in j['texts']:
+        with open(j['path'], 'w') as f:
+            f.write(text)
+        try:
+            sch = GroupAdditivityScheme.Load(j['path'])
+            out.append([decomp(sch, smi) for smi in j['smiles']])
+        except Exception as e:
+            out.append({'exc': exc_name(e)})
+    return {'reload': out}
 
 
 class Timeout(Exception):
